@@ -1,11 +1,11 @@
 """C07 — each transmitted answer answers exactly one received request, never an answer (Mon_C07.tla)"""
 from . import nodecommon as nc
-from .c07_plan import PROFILE, plans, ASSUME
+from .c07_plan import PROFILE, plans, ASSUME, enum_plans
 
 
 def run(tier, seed):
     mc, sim = plans(tier)
-    ck = nc.run_property("C07", tier, seed, "Inv07", PROFILE, mc, sim, 1500 if tier == "thorough" else 240, ASSUME)
+    ck = nc.run_property("C07", tier, seed, "Inv07", PROFILE, mc, sim, 1500 if tier == "thorough" else 240, ASSUME, enum_plan=enum_plans(tier))
     return ck.finish()
 
 
